@@ -3,8 +3,9 @@
 Bounded-exhaustive enumeration of blob mixes x limits x repeated passes on the real DiskSpaceManager +
 SQLiteStorage(':memory:') + BlobManager under the virtual loop.  Rows are written through the real
 store_stream / add_blobs / save_published_file / save_downloaded_file, blob files are sparse files of the
-declared length.  A small ledger kept by the harness (class, size, age, own?) is the reference: it says, from
-the statement alone, what a pass may and must delete.
+declared length.  A small ledger kept by the harness (class, size, age, own?, finished?) is the reference: it
+says, from the statement alone and from what is actually on disk, what a pass may and must delete.  The code's
+own usage figure (get_space_used_mb) is an observation, never an input of the reference.
 """
 import os
 import shutil
@@ -16,7 +17,7 @@ LEVEL = 'exploration'
 HASHSEEDS = {'quick': 1, 'thorough': 1}
 
 MIB = 1024 * 1024
-SIZES = {'0.4': 419430, '1.0': MIB, '1.5': MIB + MIB // 2, '2.0': 2 * MIB}
+SIZES = {'0.4': 419430, '1.0': MIB, '1.5': MIB + MIB // 2, '2.0': 2 * MIB, 'sd': 313}
 SIZE_NAMES = ['0.4', '1.0', '1.5', '2.0']
 
 
@@ -26,16 +27,97 @@ def mb(nbytes):
 
 
 # ------------------------------------------------------------------------------------------------
+# what a case consists of (pure function of the case dict; used to build the real objects AND to predict usage)
+
+EXTRAS = {
+    # name: list of stream specs added to the mix
+    'sdonly': 'a downloaded stream (file entry) that consists of its descriptor blob only',
+    'sdown': 'a stream with file entry whose descriptor blob is flagged is_mine but whose 1.5 MiB data blob is not',
+    'dataown': 'a stream with file entry whose 1.5 MiB data blob is flagged is_mine but whose descriptor is not',
+    'shared': 'two downloaded streams (file entries) that share one 1.5 MiB blob (observed and tallied only)',
+}
+
+
+def plan(case):
+    """-> (streams, net).  streams: list of dicts {tag, file, sd_own, data: [ {size, own, fin, share} ]} with data
+    oldest first; net: list of {size, fin}."""
+    pend = case.get('pend') or {}
+    streams = []
+
+    def stream(tag, sizes, pending, with_file, own, sd_own=None):
+        fin = [{'size': s, 'own': own, 'fin': True, 'share': None} for s in sizes]
+        pen = [{'size': s, 'own': own, 'fin': False, 'share': None} for s in pending]
+        data = pen + fin if case.get('pend_first') else fin + pen
+        streams.append({'tag': tag, 'file': with_file, 'sd_own': own if sd_own is None else sd_own, 'data': data})
+    if case['own'] or pend.get('own'):
+        stream('own', case['own'], pend.get('own', []), True, True)
+    if case['dln'] or pend.get('dln'):
+        stream('dln', case['dln'], pend.get('dln', []), False, False)
+    split = max(1, min(case.get('split', 1), len(case['dlf']) or 1))
+    for k in range(split):
+        part = case['dlf'][k::split]
+        pp = pend.get('dlf', []) if k == 0 else []
+        if part or pp:
+            stream(f'dlf{k}', part, pp, True, False)
+    for x in case.get('extra') or []:
+        if x == 'sdonly':
+            stream('xsdonly', [], [], True, False)
+        elif x == 'sdown':
+            stream('xsdown', ['1.5'], [], True, False, sd_own=True)
+        elif x == 'dataown':
+            stream('xdataown', ['1.5'], [], True, True, sd_own=False)
+        elif x == 'shared':
+            stream('xshared1', ['1.5'], [], True, False)
+            stream('xshared2', ['1.5'], [], True, False)
+            streams[-2]['data'][0]['share'] = streams[-1]['data'][0]['share'] = 'S'
+        else:
+            raise ValueError(x)
+    net = [{'size': s, 'fin': True} for s in case['net']]
+    pnet = [{'size': s, 'fin': False} for s in pend.get('net', [])]
+    return streams, (pnet + net if case.get('pend_first') else net + pnet)
+
+
+def case_usage(case):
+    """Real usage (whole MB) of a case: only blobs that are finished, i.e. on disk; a shared blob once."""
+    streams, net = plan(case)
+    own = other = 0
+    shared = set()
+    for st in streams:
+        for d in st['data']:
+            if not d['fin'] or (d['share'] and d['share'] in shared):
+                continue
+            if d['share']:
+                shared.add(d['share'])
+            if d['own']:
+                own += SIZES[d['size']]
+            else:
+                other += SIZES[d['size']]
+    return {'content': mb(own) + mb(other), 'network': mb(sum(SIZES[n['size']] for n in net if n['fin']))}
+
+
+# ------------------------------------------------------------------------------------------------
 # ledger (the reference model's view of one blob)
 
 class B:
-    __slots__ = ('h', 'size', 'age', 'cls', 'own', 'sd', 'stream')
+    __slots__ = ('h', 'size', 'age', 'own', 'sd', 'stream', 'filerow', 'finished')
 
-    def __init__(self, h, size, age, cls, own, sd, stream):
-        self.h, self.size, self.age, self.cls, self.own, self.sd, self.stream = h, size, age, cls, own, sd, stream
+    def __init__(self, h, size, age, own, sd, stream, filerow, finished):
+        self.h, self.size, self.age, self.own, self.sd = h, size, age, own, sd
+        self.stream, self.filerow, self.finished = stream, filerow, finished
+
+    @property
+    def cls(self):
+        if self.stream is None:
+            return 'net'
+        if self.own:
+            return 'own'
+        return 'dlf' if self.filerow else 'dln'
+
+    def label(self):
+        return self.cls + ('/sd' if self.sd else '') + ('' if self.finished else '/pending')
 
     def brief(self):
-        return f"{self.cls}{'/sd' if self.sd else ''}:{self.size / MIB:.1f}@{self.age}"
+        return f"{self.label()}:{self.size / MIB:.1f}@{self.age}"
 
 
 def fake_hash(label, seed):
@@ -48,27 +130,29 @@ class Model:
     storage classes (as the configuration documents them): *content* = blobs that belong to streams (the user's
     own ones and downloaded ones), limited by blob_storage_limit (0 = no limit); *network* = blobs seeded for the
     network that belong to no stream, limited by network_storage_limit (0 = none allowed).  Stream descriptor
-    blobs are not charged.  Usage is counted in whole megabytes per counter (own / not own)."""
+    blobs are not charged.  Only blobs that are on disk (finished) use space.  Usage is counted in whole
+    megabytes per counter (own / not own)."""
 
     def __init__(self, blobs):
         self.blobs = {b.h: b for b in blobs}
 
     def used_content(self):
-        own = sum(b.size for b in self.blobs.values() if b.own and not b.sd and b.stream)
-        other = sum(b.size for b in self.blobs.values() if not b.own and not b.sd and b.stream)
+        own = sum(b.size for b in self.blobs.values() if b.finished and b.own and not b.sd and b.stream)
+        other = sum(b.size for b in self.blobs.values() if b.finished and not b.own and not b.sd and b.stream)
         return mb(own) + mb(other)
 
     def used_network(self):
-        return mb(sum(b.size for b in self.blobs.values() if not b.stream))
+        return mb(sum(b.size for b in self.blobs.values() if b.finished and not b.stream))
 
     def removal_order(self, network):
         """Tightened reading (DESIGN A.6): content is released oldest first, descriptor blobs after all data
-        blobs; network blobs largest first, then oldest.  Only blobs that are not the user's own and - for
-        content - whose stream has a file entry are removable."""
+        blobs; network blobs largest first, then oldest.  Only blobs that are on disk, are not the user's own
+        and - for content - whose stream has a file entry are removable."""
         if network:
-            r = [b for b in self.blobs.values() if b.cls == 'net' and not b.own]
+            r = [b for b in self.blobs.values() if b.cls == 'net' and not b.own and b.finished]
             return sorted(r, key=lambda b: (-b.size, b.age))
-        data = sorted((b for b in self.blobs.values() if b.cls == 'dlf' and not b.sd), key=lambda b: (b.age, b.size))
+        data = sorted((b for b in self.blobs.values() if b.cls == 'dlf' and not b.sd and b.finished),
+                      key=lambda b: (b.age, b.size))
         sds = sorted((b for b in self.blobs.values() if b.cls == 'dlf' and b.sd), key=lambda b: b.age)
         return data + sds
 
@@ -88,8 +172,9 @@ class Model:
 
 
 def judge_pass(model, deleted, which, limit, ctx):
-    """deleted: hashes that disappeared during one pass (`which` = 'content' | 'network') over the ledger `model`
-    (state before the pass).  Returns list of (signature, what)."""
+    """deleted: hashes that disappeared during one half of clean() (`which` = 'content' | 'network') over the ledger
+    `model` (state before it).  A half that did not run at all is judged with deleted = {} - the statement does not
+    care why nothing was removed.  Returns list of (signature, what)."""
     out = []
     network = which == 'network'
     gone = sorted((model.blobs[h] for h in deleted), key=lambda b: b.age)
@@ -97,6 +182,7 @@ def judge_pass(model, deleted, which, limit, ctx):
         if b.own:
             out.append(({'kind': 'own-blob-deleted', 'pass': which, 'class': b.cls, 'sd': b.sd, **ctx},
                         f'the {which} pass removed {b.brief()}, a blob the user published'))
+
     def label(b):
         return b.cls + ('/sd' if b.sd else '')
     foreign = [b for b in gone if not b.own and (b.cls == 'net') != network]
@@ -192,9 +278,13 @@ def drop_dir():
 
 class Case:
     """case dict:
-       own, dlf, dln, net : lists of size names, oldest first
+       own, dlf, dln, net : lists of size names of *finished* blobs, oldest first
+       pend   : optional {class: [size names]} of *pending* blobs of that class (row, no file): blobs a descriptor
+                lists but that were never fetched / network blobs whose row was downgraded
+       pend_first : the pending blobs are older than the finished ones of their class (default: newer)
        split  : dlf blobs are spread round-robin over this many streams (1 or 2)
-       lc, ln : ('abs', n) or ('rel', delta) or ('x10',) - limit relative to the usage at the start
+       extra  : optional list of names from EXTRAS
+       lc, ln : ('abs', n) or ('rel', delta) or ('x10',) - limit relative to the real usage at the start
        seed   : rotates the fake blob hashes only
     """
 
@@ -208,69 +298,78 @@ class Case:
         self.age = 1_500_000_000
         self.n = 0
         self.blobs = []
+        self.shared = {}
         self.loop = None
 
     def next_age(self):
         self.age += 1000
         return self.age
 
-    def mk(self, size_name, cls, own, sd, stream):
+    def mk(self, size_name, own, sd, stream, filerow, finished):
         self.n += 1
-        size = SIZES[size_name] if size_name in SIZES else int(size_name)
-        b = B(fake_hash(f'{cls}/{self.n}', self.case.get('seed', 0)), size, self.next_age(), cls, own, sd, stream)
+        b = B(fake_hash(f'{stream}/{self.n}', self.case.get('seed', 0)), SIZES[size_name], self.next_age(), own, sd,
+              stream, filerow, finished)
         self.blobs.append(b)
-        with open(os.path.join(self.bd, b.h), 'wb') as f:
-            f.truncate(size)
+        if finished:
+            with open(os.path.join(self.bd, b.h), 'wb') as f:
+                f.truncate(b.size)
         return b
 
-    async def add_stream(self, cls, sizes, with_file, own, tag):
+    async def add_stream(self, spec):
         """Rows exactly as a download / publish leaves them: store_stream (pending rows + stream + stream_blob),
-        add_blobs(finished=True) per blob as blob_completed does, save_*_file for the file entry."""
+        add_blobs(finished=True) for every blob that was fetched (as blob_completed does), save_*_file for the
+        file entry.  Blobs that were never fetched keep the pending row store_stream gave them and have no file."""
         from lbry.stream.descriptor import StreamDescriptor
         from lbry.blob.blob_info import BlobInfo
-        data = [self.mk(s, cls, own, False, tag) for s in sizes]
-        sd = self.mk('313', cls, own, True, tag)
+        tag = spec['tag']
+        data = []
+        for d in spec['data']:
+            if d['share'] and d['share'] in self.shared:
+                data.append(self.shared[d['share']])
+                continue
+            b = self.mk(d['size'], d['own'], False, tag, spec['file'], d['fin'])
+            if d['share']:
+                self.shared[d['share']] = b
+            data.append(b)
+        sd = self.mk('sd', spec['sd_own'], True, tag, spec['file'], True)
         # position in the stream is the reverse of the age order, so that "oldest first" is distinguishable from
         # stream order and from insertion order
-        infos = [BlobInfo(i, b.size, '%032x' % (i + 1), b.age, b.h, own) for i, b in enumerate(reversed(data))]
-        infos.append(BlobInfo(len(infos), 0, '%032x' % 99, sd.age, None, own))
+        infos = [BlobInfo(i, b.size, '%032x' % (i + 1), b.age, b.h, b.own) for i, b in enumerate(reversed(data))]
+        infos.append(BlobInfo(len(infos), 0, '%032x' % 99, sd.age, None, spec['sd_own']))
         desc = StreamDescriptor(self.loop, self.bd, f'{tag}.bin', '00' * 16, f'{tag}.bin', infos,
                                 stream_hash=fake_hash('stream/' + tag, 0), sd_hash=sd.h)
 
         class SdBlob:
-            blob_hash, length, added_on, is_mine = sd.h, sd.size, sd.age, own
+            blob_hash, length, added_on, is_mine = sd.h, sd.size, sd.age, spec['sd_own']
         await self.st.store_stream(SdBlob, desc)
-        await self.st.add_blobs(*[(b.h, b.size, b.age, own) for b in data + [sd]], finished=True)
-        if with_file:
-            if own:
+        await self.st.add_blobs(*[(b.h, b.size, b.age, b.own) for b in data + [sd] if b.finished], finished=True)
+        if spec['file']:
+            if spec['sd_own']:
                 await self.st.save_published_file(desc.stream_hash, 'file.bin', os.path.join(self.d, 'dl'), 0)
             else:
                 await self.st.save_downloaded_file(desc.stream_hash, 'file.bin', os.path.join(self.d, 'dl'), 0.0)
 
-    async def add_network(self, sizes):
-        blobs = [self.mk(s, 'net', False, False, None) for s in sizes]
-        if blobs:
-            await self.st.add_blobs(*[(b.h, b.size, b.age, False) for b in blobs], finished=True)
+    async def add_network(self, specs):
+        blobs = [self.mk(n['size'], False, False, None, False, n['fin']) for n in specs]
+        fin = [(b.h, b.size, b.age, False) for b in blobs if b.finished]
+        pen = [(b.h, b.size, b.age, False) for b in blobs if not b.finished]
+        if fin:
+            await self.st.add_blobs(*fin, finished=True)
+        if pen:
+            await self.st.add_blobs(*pen, finished=False)
 
     async def build(self):
         from lbry.conf import Config
         from lbry.blob.blob_manager import BlobManager
         from lbry.extras.daemon.storage import SQLiteStorage
         from lbry.blob.disk_space_manager import DiskSpaceManager
-        c = self.case
         self.conf = Config(data_dir=self.d, wallet_dir=self.d, download_dir=os.path.join(self.d, 'dl'))
         self.st = SQLiteStorage(self.conf, ':memory:', loop=self.loop)
         await self.st.open()
-        if c['own']:
-            await self.add_stream('own', c['own'], True, True, 'own')
-        if c['dln']:
-            await self.add_stream('dln', c['dln'], False, False, 'dln')
-        split = max(1, min(c.get('split', 1), len(c['dlf']) or 1))
-        for k in range(split):
-            part = c['dlf'][k::split]
-            if part:
-                await self.add_stream('dlf', part, True, False, f'dlf{k}')
-        await self.add_network(c['net'])
+        streams, net = plan(self.case)
+        for spec in streams:
+            await self.add_stream(spec)
+        await self.add_network(net)
         self.bm = BlobManager(self.loop, self.bd, self.st, self.conf)
         await self.bm.setup()
         self.dsm = DiskSpaceManager(self.conf, self.st, self.bm)
@@ -281,8 +380,11 @@ class Case:
         return rows, files
 
 
+HALVES = ('content', 'network')
+
+
 def run_case(case, res, log=None):
-    """Executes one case (three passes).  Returns the list of findings (signature, what)."""
+    """Executes one case (three clean() calls).  Returns the list of findings (signature, what)."""
     from vf.vloop import VLoop
     findings = []
     cs = Case(case)
@@ -291,19 +393,14 @@ def run_case(case, res, log=None):
         loop.run(cs.build())
         model = Model(cs.blobs)
         used0 = {'content': model.used_content(), 'network': model.used_network()}
-        real = loop.run(cs.dsm.get_space_used_mb(cached=False))
-        real_used = {'content': real['content_storage'] + real['private_storage'], 'network': real['network_storage']}
-        if real_used != used0:
-            raise RuntimeError(f'harness ledger disagrees with get_space_used_mb: {used0} vs {real}')
-        limits = {'content': resolve_limit(case['lc'], used0['content']),
-                  'network': resolve_limit(case['ln'], used0['network'])}
-        if limits != case_limits(case):
-            raise RuntimeError('harness: usage predicted from the case differs from the ledger')
+        if used0 != case_usage(case):
+            raise RuntimeError(f'harness: usage predicted from the case {case_usage(case)} differs from the ledger {used0}')
+        limits = case_limits(case)
         cs.conf.blob_storage_limit = limits['content']
         cs.conf.network_storage_limit = limits['network']
         if log is not None:
             log.append(f"blobs: {[b.brief() for b in cs.blobs]}")
-            log.append(f'usage MB {used0}, limits MB {limits}')
+            log.append(f'real usage MB {used0}, limits MB {limits}')
         nontrivial = False
         # attribute deletions to the content / network half of clean(): observe around the real _clean
         record = []
@@ -318,36 +415,77 @@ def run_case(case, res, log=None):
         for pass_no in (1, 2, 3):
             if pass_no == 3:
                 # a new download and a new network blob arrive between the passes
-                loop.run(cs.add_stream('dlf', ['2.0'], True, False, 'late'))
-                loop.run(cs.add_network(['1.0']))
-                for b in cs.blobs[-3:]:
+                n0 = len(cs.blobs)
+                loop.run(cs.add_stream({'tag': 'late', 'file': True, 'sd_own': False,
+                                        'data': [{'size': '2.0', 'own': False, 'fin': True, 'share': None}]}))
+                loop.run(cs.add_network([{'size': '1.0', 'fin': True}]))
+                for b in cs.blobs[n0:]:
                     model.blobs[b.h] = b
                     if not b.sd:
                         cs.bm.completed_blob_hashes.add(b.h)
+            reported = loop.run(cs.dsm.get_space_used_mb(cached=False))
+            if (reported['content_storage'] + reported['private_storage'], reported['network_storage']) != \
+                    (model.used_content(), model.used_network()):
+                # an observation, not a verdict: what the passes then do with the figure is what is judged
+                res.tally('interpretation_only:get_space_used_mb_differs_from_what_is_on_disk')
             del record[:]
-            loop.run(cs.dsm.clean())
-            if [r[0] for r in record] != ['content', 'network']:
-                raise RuntimeError(f'clean() ran passes {[r[0] for r in record]}')
-            for which, (before_rows, before_files), (rows1, files1), ret in record:
+            start = cs.observe()
+            over_at_start = [w for w in HALVES if model.expected(w == 'network', limits[w])[0]]
+            if len(over_at_start) == 2:
+                res.witness('both_classes_over_their_limit_in_one_clean')
+            error = None
+            try:
+                loop.run(cs.dsm.clean())
+            except Exception as e:   # noqa - a refusal; what it left behind is judged like any other outcome
+                error = type(e).__name__
+                res.tally(f'clean_raised_{error}')
+            end = cs.observe()
+            # every half the statement speaks about is judged; a half that did not run is an empty observation
+            # taken where it would have run (content first, network second)
+            steps = list(record)
+            ran = [r[0] for r in steps]
+            if ran != list(HALVES):
+                res.tally('clean_did_not_run_exactly_one_content_and_one_network_half')
+                steps = []
+                pos = start
+                for w in HALVES:
+                    mine = [r for r in record if r[0] == w]
+                    if mine:
+                        steps.extend(mine)
+                        pos = mine[-1][2]
+                    else:
+                        steps.append((w, pos, pos, None))
+                # whatever happened outside the observed halves is charged to the last step
+                if steps[-1][2] != end:
+                    steps[-1] = (steps[-1][0], steps[-1][1], end, steps[-1][3])
+            for which, (before_rows, before_files), (rows1, files1), ret in steps:
                 network = which == 'network'
                 res.count('passes')
-                gone_rows = before_rows - rows1
-                gone_files = before_files - files1
                 ctx = {'pass_no': pass_no}
+                if ret is None and which not in ran:
+                    ctx['half_pass'] = 'did-not-run'
                 if rows1 - before_rows or files1 - before_files:
                     findings.append(({'kind': 'pass-created-something', **ctx}, 'a pass created rows or files'))
-                if gone_rows != gone_files:
-                    findings.append(({'kind': 'row-file-mismatch-after-delete', 'pass': which, **ctx},
-                                     f'rows removed {len(gone_rows)} files removed {len(gone_files)}: '
-                                     f'{sorted(h[:6] for h in gone_rows ^ gone_files)}'))
-                deleted = (gone_rows | gone_files) & set(model.blobs)
+                deleted = set()
+                for h, b in model.blobs.items():
+                    row_gone = h in before_rows and h not in rows1
+                    file_gone = h in before_files and h not in files1
+                    if b.finished:
+                        if row_gone or file_gone:
+                            deleted.add(h)
+                        if row_gone != file_gone:
+                            findings.append(({'kind': 'row-file-mismatch-after-delete', 'pass': which, **ctx},
+                                             f'{b.brief()}: row removed {row_gone}, file removed {file_gone}'))
+                    elif row_gone:
+                        res.tally('interpretation_only:row_of_a_blob_that_is_not_on_disk_removed')
                 over_before = model.expected(network, limits[which])[0]
-                findings.extend(judge_pass(model, deleted, which, limits[which], ctx))
+                used_before = model.used_network() if network else model.used_content()
+                fs = judge_pass(model, deleted, which, limits[which], ctx)
                 if log is not None:
-                    log.append(f"clean() #{pass_no} {which} pass: usage {model.used_network() if network else model.used_content()} MB, "
-                               f"limit {limits[which]} MB; removed "
+                    log.append(f"clean() #{pass_no} {which} half{' (DID NOT RUN)' if 'half_pass' in ctx else ''}: real usage "
+                               f"{used_before} MB, limit {limits[which]} MB; removed "
                                f"{[model.blobs[h].brief() for h in sorted(deleted, key=lambda h: model.blobs[h].age)]}")
-                if ret != len(deleted):
+                if ret is not None and ret != len(deleted):
                     res.tally('interpretation_only:_clean_return_value_differs_from_number_deleted')
                 if deleted:
                     res.witness('pass_that_deleted')
@@ -363,22 +501,26 @@ def run_case(case, res, log=None):
                     res.witness('over_limit_pass')
                     if not deleted:
                         res.witness('over_limit_but_nothing_removable')
-                elif not network and limits['content'] != 0 and any(b.cls == 'dlf' for b in model.blobs.values()):
-                    res.witness('content_pass_within_nonzero_limit_with_removable_blobs')
+                else:
+                    if not network and limits['content'] != 0 and model.removal_order(False):
+                        res.witness('content_pass_within_nonzero_limit_with_removable_blobs')
+                    if pass_no == 2 and used_before == limits[which] and (network or limits[which] != 0) and \
+                            used_before < used0[which]:
+                        res.witness('pass_exactly_at_its_limit_after_an_earlier_pass')
+                    if any(not b.finished for b in model.blobs.values() if (b.cls == 'net') == network):
+                        res.witness('within_limit_pass_with_pending_rows_present')
                 for h in deleted:
                     del model.blobs[h]
                 # sufficiency: after the pass usage is within the limit whenever removable blobs sufficed
                 over, excess, exp = model.expected(network, limits[which])
                 if over and exp and sum(mb(b.size) for b in model.removal_order(network)) >= excess:
-                    findings.append(({'kind': 'still-over-limit-with-removable-left', 'pass': which, **ctx},
-                                     f'after the {which} pass usage exceeds the limit by {excess} MB and removable '
-                                     f'blobs {[b.brief() for b in model.removal_order(network)]} are left'))
+                    if not any(sig['kind'] == 'under-deleted' and sig['pass'] == which for sig, _ in fs):
+                        fs.append(({'kind': 'still-over-limit-with-removable-left', 'pass': which, **ctx},
+                                   f'after the {which} pass usage exceeds the limit by {excess} MB and removable '
+                                   f'blobs {[b.brief() for b in model.removal_order(network)]} are left'))
                 elif over:
                     res.tally('interpretation_only:over_limit_after_pass_only_unremovable_blobs_left')
-            real = loop.run(cs.dsm.get_space_used_mb(cached=False))
-            if (real['content_storage'] + real['private_storage'], real['network_storage']) != \
-                    (model.used_content(), model.used_network()):
-                raise RuntimeError('harness ledger disagrees with get_space_used_mb after a pass')
+                findings.extend(fs)
         if nontrivial:
             res.distinct_add('nontrivial', case_key(case))
         return findings
@@ -403,15 +545,19 @@ def resolve_limit(spec, used):
 
 
 def case_limits(case):
-    """The absolute limits (MB) a case stands for, computed from its size lists."""
-    own = sum(SIZES[s] for s in case['own'])
-    other = sum(SIZES[s] for s in case['dlf'] + case['dln'])
-    net = sum(SIZES[s] for s in case['net'])
-    return {'content': resolve_limit(case['lc'], mb(own) + mb(other)), 'network': resolve_limit(case['ln'], mb(net))}
+    """The absolute limits (MB) a case stands for: its limit specs resolved against its real usage."""
+    u = case_usage(case)
+    return {'content': resolve_limit(case['lc'], u['content']), 'network': resolve_limit(case['ln'], u['network'])}
+
+
+def _pend_key(case):
+    p = case.get('pend') or {}
+    return tuple(sorted((k, tuple(v)) for k, v in p.items() if v))
 
 
 def case_key(case):
     return (tuple(case['own']), tuple(case['dlf']), tuple(case['dln']), tuple(case['net']), case.get('split', 1),
+            _pend_key(case) + ((('first',),) if case.get('pend_first') else ()), tuple(case.get('extra') or ()),
             tuple(case['lc']), tuple(case['ln']))
 
 
@@ -429,8 +575,10 @@ def seqs(max_len, names=SIZE_NAMES):
 
 
 def enumerate_cases(quick):
-    """Content side in full x reduced network side, network side in full x reduced content side, and a cross
-    product of both sides on reduced alphabets with all 36 limit pairs."""
+    """(A) content side in full x reduced network side, (B) network side in full x reduced content side, (C) cross
+    product of both sides on reduced alphabets with all 36 limit pairs, (D) partially downloaded streams / pending
+    rows in every class, (E) odd streams (descriptor only, ownership flag on the descriptor or on the data only,
+    a blob shared by two streams)."""
     n = 2 if quick else 3
     dlf_full = seqs(n)
     net_full = seqs(n)
@@ -440,26 +588,37 @@ def enumerate_cases(quick):
     else:
         own_a = [[], ['0.4'], ['1.0'], ['1.5'], ['2.0'], ['1.5', '1.5'], ['2.0', '2.0'], ['0.4', '0.4', '0.4']]
         dln_a = [[], ['0.4'], ['1.0'], ['1.5'], ['2.0'], ['2.0', '1.0'], ['0.4', '0.4', '0.4']]
+    # every reduced network side but the first and last puts network storage over or exactly at its limit, so that
+    # sweep A contains every content-limit position together with a network class that needs its own pass
     net_red = [([], ('abs', 0)), (['1.5'], ('abs', 0)), (['1.5'], ('rel', 0)), (['0.4', '2.0'], ('rel', -1)),
                (['0.4', '2.0'], ('x10',))]
     content_red = [([], [], [], ('abs', 0)), (['1.5'], ['1.0', '2.0'], [], ('abs', 0)),
                    (['1.5'], ['1.0', '2.0'], [], ('rel', -1)), (['2.0'], ['2.0', '0.4'], ['1.0'], ('rel', 0)),
                    ([], ['1.5', '1.5'], ['2.0'], ('x10',))]
     cases = []
+
+    def add(own, dln, dlf, net, lc, ln, split=1, pend=None, extra=None, pend_first=False):
+        c = {'own': own, 'dln': dln, 'dlf': dlf, 'net': net, 'split': split, 'lc': lc, 'ln': ln}
+        if pend:
+            c['pend'] = {k: v for k, v in pend.items() if v}
+            if pend_first:
+                c['pend_first'] = True
+        if extra:
+            c['extra'] = list(extra)
+        cases.append(c)
     # A: content side in full
     for own in own_a:
         for dln in dln_a:
             for dlf in dlf_full:
                 for split in ((1, 2) if len(dlf) >= 2 else (1,)):
                     for lc in LIMIT_SPECS:
-                        for net, ln in (net_red if not quick else net_red[:3] + net_red[3:4]):
-                            cases.append({'own': own, 'dln': dln, 'dlf': dlf, 'net': net, 'split': split,
-                                          'lc': lc, 'ln': ln})
+                        for net, ln in (net_red if not quick else net_red[:4]):
+                            add(own, dln, dlf, net, lc, ln, split)
     # B: network side in full
     for net in net_full:
         for ln in LIMIT_SPECS:
             for own, dlf, dln, lc in content_red:
-                cases.append({'own': own, 'dln': dln, 'dlf': dlf, 'net': net, 'split': 1, 'lc': lc, 'ln': ln})
+                add(own, dln, dlf, net, lc, ln)
     # C: cross product, reduced alphabets, all limit pairs
     small = [[], ['0.4'], ['2.0']] if quick else [[], ['0.4'], ['2.0'], ['1.5', '1.0']]
     for own in small:
@@ -468,20 +627,46 @@ def enumerate_cases(quick):
                 for net in small:
                     for lc in LIMIT_SPECS:
                         for ln in LIMIT_SPECS:
-                            cases.append({'own': own, 'dln': dln, 'dlf': dlf, 'net': net, 'split': 1,
-                                          'lc': lc, 'ln': ln})
+                            add(own, dln, dlf, net, lc, ln)
+    # D: pending rows (blobs listed by a descriptor but never fetched, network rows without file) in every class
+    pend_dlf = [['2.0'], ['1.0', '1.5']] if quick else [['0.4'], ['2.0'], ['1.0', '1.5'], ['2.0', '2.0', '2.0']]
+    net_sides = [([], [], ('abs', 0)), (['1.5'], ['2.0'], ('rel', 0)), (['0.4', '2.0'], ['1.0'], ('rel', 1)),
+                 (['1.5'], ['1.5'], ('rel', -1))]
+    for dlf in seqs(2):
+        for pd in pend_dlf:
+            for own in ([], ['1.5']):
+                for lc in LIMIT_SPECS:
+                    for net, pn, ln in net_sides:
+                        for first in (False, True):
+                            add(own, [], dlf, net, lc, ln, pend={'dlf': pd, 'net': pn}, pend_first=first)
+    for dlf in seqs(1 if quick else 2):
+        for lc in LIMIT_SPECS:
+            for ln in (('abs', 0), ('rel', 0)):
+                # pending rows of the user's own stream (file lost, row downgraded) and of a stream without file entry
+                add(['1.5'], [], dlf, ['1.5'], lc, ln, pend={'own': ['2.0']})
+                add([], ['1.0'], dlf, ['1.5'], lc, ln, pend={'dln': ['2.0']})
+                add(['1.0'], ['1.0'], dlf, [], lc, ln, pend={'own': ['1.5'], 'dln': ['1.5'], 'dlf': ['1.5'],
+                                                            'net': ['1.5']})
+    # E: odd streams
+    for x in ('sdonly', 'sdown', 'dataown', 'shared'):
+        for dlf in seqs(1 if quick else 2):
+            for own in ([], ['1.5']):
+                for lc in LIMIT_SPECS:
+                    for net, ln in net_red[:3]:
+                        add(own, [], dlf, net, lc, ln, extra=[x])
     seen, out = set(), []
     for c in cases:
         lim = case_limits(c)
         if lim['content'] < 0 or lim['network'] < 0:
             continue
         # two specs that resolve to the same number are the same case
-        k = case_key(c)[:5] + (lim['content'], lim['network'])
+        k = case_key(c)[:7] + (lim['content'], lim['network'])
         if k not in seen:
             seen.add(k)
             out.append(c)
-    # simplest first: fewest blobs, then smallest limits index
-    out.sort(key=lambda c: (len(c['own']) + len(c['dln']) + len(c['dlf']) + len(c['net']),))
+    # simplest first: fewest blobs
+    out.sort(key=lambda c: (len(c['own']) + len(c['dln']) + len(c['dlf']) + len(c['net']) +
+                            sum(len(v) for v in (c.get('pend') or {}).values()) + 2 * len(c.get('extra') or ()),))
     return out
 
 
@@ -492,6 +677,11 @@ def work(item, res):
         fs = run_case(case, res)
         res.count('evaluations')
         res.count('executions')
+        if 'shared' in (case.get('extra') or ()):
+            # a blob that belongs to two streams: the statement does not say how it is charged - observed only
+            for sig, what in fs:
+                res.tally('interpretation_only:shared_blob_case_' + sig['kind'])
+            continue
         for sig, what in fs:
             res.violation(sig, what + f'  [case {fmt_case(case)}]', {'case': case})
     drop_dir()
@@ -499,9 +689,13 @@ def work(item, res):
 
 def fmt_case(c):
     lim = case_limits(c)
-    return (f"own={c['own']} dl+file={c['dlf']}x{c.get('split', 1)} dl-nofile={c['dln']} net={c['net']} "
-            f"blob_storage_limit={lim['content']} ({fmt_l(c['lc'])}) "
-            f"network_storage_limit={lim['network']} ({fmt_l(c['ln'])})")
+    s = f"own={c['own']} dl+file={c['dlf']}x{c.get('split', 1)} dl-nofile={c['dln']} net={c['net']} "
+    if c.get('pend'):
+        s += f"pending{'(oldest)' if c.get('pend_first') else ''}={c['pend']} "
+    if c.get('extra'):
+        s += f"extra={c['extra']} "
+    return s + (f"blob_storage_limit={lim['content']} ({fmt_l(c['lc'])}) "
+                f"network_storage_limit={lim['network']} ({fmt_l(c['ln'])})")
 
 
 def fmt_l(spec):
@@ -518,33 +712,45 @@ def run(ctx):
     for c in (cases[0], cases[len(cases) // 2], cases[-1]):
         ctx.res.sample({'case': fmt_case(c)})
     n = 2 if ctx.quick else 3
+    ctx.res.count('cases_with_pending_rows', sum(1 for c in cases if c.get('pend')))
+    ctx.res.count('cases_with_odd_streams', sum(1 for c in cases if c.get('extra')))
     ctx.meta.update(
         rule=('cases = (A) every age-ordered size sequence of 0..n downloaded-with-file blobs x own-stream and '
-              'fileless-stream alphabets x 6 content limits x a reduced network side; (B) every size sequence of '
-              '0..n network blobs x 6 network limits x a reduced content side; (C) full product of reduced mixes '
-              'with all 36 limit pairs; sizes {0.4,1.0,1.5,2.0} MiB, distinct ages, limits {0, used-2, used-1, '
-              'used, used+1, 10*used} (negative ones dropped). Each case runs clean(), clean() again, then a new '
-              'download + a new network blob and clean() a third time; deletions are attributed to the content / '
-              'network half of each clean(). Non-trivial = a case '
-              'whose own mix and limits (first two clean() calls, before the extra download) put some pass over its '
-              'limit or made it delete something.'),
+              'fileless-stream alphabets x 6 content limits x a reduced network side (over / at / within its limit); '
+              '(B) every size sequence of 0..n network blobs x 6 network limits x a reduced content side; (C) full '
+              'product of reduced mixes with all 36 limit pairs; (D) partially downloaded streams: every sequence of '
+              '0..2 finished blobs x pending (listed, never fetched, no file) blobs in the downloaded, own, '
+              'fileless and network classes x 6 content limits x network sides; (E) odd streams: descriptor only, '
+              'is_mine on the descriptor only, is_mine on the data only, a blob shared by two streams (tallied '
+              'only); sizes {0.4,1.0,1.5,2.0} MiB, distinct ages, limits {0, used-2, used-1, used, used+1, 10*used} '
+              'relative to the REAL usage (negative ones dropped). Each case runs clean(), clean() again, then a '
+              'new download + a new network blob and clean() a third time; deletions are attributed to the content / '
+              'network half of each clean(), a half that does not run is judged as an empty half. Non-trivial = a '
+              'case whose own mix and limits (first two clean() calls, before the extra download) put some pass over '
+              'its limit or made it delete something.'),
         exhaustive=True,
         bounds={'max_blobs_per_class': n, 'sizes_MiB': SIZE_NAMES, 'limit_specs': [fmt_l(s) for s in LIMIT_SPECS],
                 'clean_calls_per_case': 3, 'cases': len(cases)},
         assumptions=[
             'sparse files stand in for blob contents; rows are written through store_stream/add_blobs/save_*_file',
-            'usage is counted in whole MiB per counter (own / not own), descriptor blobs are not charged; the '
-            'ledger figure is cross-checked against get_space_used_mb() in every case (a mismatch is a harness error)',
-            'removable = not the user\'s own and, for content, belonging to a stream with a file entry; blobs of a '
-            'stream without a file entry count towards usage but are never offered for removal (weaker reading '
-            'enforced; the stronger one - they should be removable - is tallied)',
+            'usage is what is on disk: finished blobs, counted in whole MiB per counter (own / not own), descriptor '
+            'blobs not charged; get_space_used_mb() is only observed (a difference from the ledger is tallied, the '
+            'passes are judged on the real usage)',
+            'removable = on disk, not the user\'s own and, for content, belonging to a stream with a file entry; '
+            'blobs of a stream without a file entry count towards usage but are never offered for removal (weaker '
+            'reading enforced; the stronger one - they should be removable - is tallied)',
             'removal order (oldest content first, descriptor blobs last; network largest first then oldest) is the '
             'tightened reading allowed by DESIGN A.6: silent on the fixed tree',
+            'a blob shared by two streams is charged once by the ledger; the statement does not define it, findings '
+            'of those cases are tallied only',
         ],
         expected_witnesses=['pass_that_deleted', 'pass_that_deleted_several', 'over_limit_pass',
                             'over_limit_but_nothing_removable', 'sub_megabyte_blob_deleted',
                             'descriptor_blob_deleted_after_all_data_blobs',
-                            'content_pass_within_nonzero_limit_with_removable_blobs'],
+                            'content_pass_within_nonzero_limit_with_removable_blobs',
+                            'both_classes_over_their_limit_in_one_clean',
+                            'pass_exactly_at_its_limit_after_an_earlier_pass',
+                            'within_limit_pass_with_pending_rows_present'],
     )
 
 
